@@ -25,6 +25,8 @@
 #include "DensityGridWriterFields.hpp"
 #include "GadgetDensityGridWriter.hpp"
 #include "HDF5Tools.hpp"
+#include "Hydro.hpp"
+#include "HydroDensitySubGrid.hpp"
 
 static uint64_t mix(uint64_t x) {
   x += 0x9e3779b97f4a7c15ull;
@@ -395,6 +397,177 @@ static void op_snapidx(const std::vector< std::string > &w, const std::string &d
   std::fflush(stdout);
 }
 
+// ---------------------------------------------------------------------------------------------
+// snapfields <hydro> <nd> <rho> <T> <P> <frac> <vel> <useDensity> <usePressure> <nx> <ny> <nz> <gx> <gy> <gz> <buffer>
+// Every combination of stored quantities: task-based grid (hydro subgrids when <hydro>=1, their
+// primitive variables set by the real Hydro::ionization_to_hydro), the writer configured to store
+// NumberDensity / Density / Temperature / Pressure / neutral fractions / Velocities as flagged,
+// read back through both readers (plain reader with the two flags).  Cell state as a function of
+// the cell number (same expressions as Driver/C20.lean):
+//   n = (cid+1)*1e6, T = 100 + cid*3.7, x_H = (cid%97+1)/100  (1e-6, the readers' default, when
+//   the fractions are not stored), other ions (ion+1)/64 + x_H/2, velocity (cid, -cid, 0.5)
+// answer: ok <total> P=<n,T,xH bits per cell;...> R=<...|->
+class StateFunction : public DensityFunction {
+public:
+  long n[3];
+  bool fractions;
+  static double dens(long cid) { return (double)(cid + 1) * 1.0e6; }
+  static double temp(long cid) { return 100.0 + (double)cid * 3.7; }
+  double xH(long cid) const { return fractions ? ((double)(cid % 97) + 1.0) / 100.0 : 1.0e-6; }
+  double xion(long cid, int ion) const {
+    return ion == 0 ? xH(cid) : (fractions ? (ion + 1) / 64. + xH(cid) / 2. : 1.0e-6);
+  }
+  virtual DensityValues operator()(const Cell &cell) {
+    const CoordinateVector<> p = cell.get_cell_midpoint();
+    const long cid = ((long)std::floor(p.x()) * n[1] + (long)std::floor(p.y())) * n[2] +
+                     (long)std::floor(p.z());
+    DensityValues v;
+    v.set_number_density(dens(cid));
+    v.set_temperature(temp(cid));
+    for (int ion = 0; ion < NUMBER_OF_IONNAMES; ++ion)
+      v.set_ionic_fraction(ion, xion(cid, ion));
+    v.set_velocity(CoordinateVector<>((double)cid, -(double)cid, 0.5));
+    return v;
+  }
+};
+
+template < typename _reader_ >
+static std::string read_states(_reader_ &reader, const StateFunction &sf, const bool check_velocity,
+                               std::string &what, const char *rname) {
+  std::string out;
+  const long *n = sf.n;
+  for (long ix = 0; ix < n[0]; ++ix)
+    for (long iy = 0; iy < n[1]; ++iy)
+      for (long iz = 0; iz < n[2]; ++iz) {
+        const long cid = (ix * n[1] + iy) * n[2] + iz;
+        const DensityValues v = reader(PointCell(CoordinateVector<>(ix + 0.5, iy + 0.5, iz + 0.5)));
+        if (!out.empty())
+          out += ";";
+        out += showF(v.get_number_density()) + "," + showF(v.get_temperature()) + "," +
+               showF(v.get_ionic_fraction(ION_H_n));
+        // the property: the state that is read back is the state of the cell (round-off of the
+        // conversions only)
+        auto rel = [](double a, double b) {
+          return a == b ? 0. : std::fabs(a - b) / std::max(std::fabs(a), std::fabs(b));
+        };
+        std::string bad;
+        if (!(rel(v.get_number_density(), sf.dens(cid)) <= 1.e-13))
+          bad = "number density";
+        else if (!(rel(v.get_temperature(), sf.temp(cid)) <= 1.e-13))
+          bad = "temperature";
+        else {
+          for (int ion = 0; ion < NUMBER_OF_IONNAMES && bad.empty(); ++ion)
+            if (v.get_ionic_fraction(ion) != sf.xion(cid, ion))
+              bad = "fraction of ion " + get_ion_name(ion);
+          if (bad.empty() && check_velocity &&
+              !(v.get_velocity().x() == (double)cid && v.get_velocity().y() == -(double)cid &&
+                v.get_velocity().z() == 0.5))
+            bad = "velocity";
+        }
+        if (!bad.empty() && what.empty()) {
+          std::ostringstream o;
+          o.precision(17);
+          o << rname << ": " << bad << " of cell (" << ix << "," << iy << "," << iz << "): state n="
+            << sf.dens(cid) << " T=" << sf.temp(cid) << " xH=" << sf.xH(cid) << ", read n="
+            << v.get_number_density() << " T=" << v.get_temperature()
+            << " xH=" << v.get_ionic_fraction(ION_H_n);
+          what = o.str();
+        }
+      }
+  return out;
+}
+
+static void op_snapfields(const std::vector< std::string > &w, const std::string &dir, long lineno) {
+  const bool hydro = w[1] == "1", s_nd = w[2] == "1", s_rho = w[3] == "1", s_T = w[4] == "1",
+             s_P = w[5] == "1", s_frac = w[6] == "1", s_vel = w[7] == "1", use_density = w[8] == "1",
+             use_pressure = w[9] == "1";
+  long n[3], g[3];
+  for (int k = 0; k < 3; ++k) {
+    n[k] = std::atol(w[10 + k].c_str());
+    g[k] = std::atol(w[13 + k].c_str());
+  }
+  const long buffer = std::atol(w[16].c_str());
+  const bool cubic = n[0] == n[1] && n[1] == n[2];
+  std::ostringstream pt;
+  pt << "SimulationBox:\n  anchor: [0. m, 0. m, 0. m]\n  sides: [" << n[0] << ". m, " << n[1] << ". m, "
+     << n[2] << ". m]\n  periodicity: [false, false, false]\n"
+     << "DensityGrid:\n  number of cells: [" << n[0] << ", " << n[1] << ", " << n[2] << "]\n"
+     << "DensitySubGridCreator:\n  number of subgrids: [" << g[0] << ", " << g[1] << ", " << g[2]
+     << "]\n  periodicity: [false, false, false]\n";
+  ParameterFile params;
+  {
+    std::istringstream is(pt.str());
+    params._yaml_dictionary = YAMLDictionary(is);
+  }
+  const CoordinateVector<> anchor =
+      params.get_physical_vector< QUANTITY_LENGTH >("SimulationBox:anchor");
+  const CoordinateVector<> sides =
+      params.get_physical_vector< QUANTITY_LENGTH >("SimulationBox:sides");
+  params.get_value< CoordinateVector< bool > >("SimulationBox:periodicity");
+  Box<> box(anchor, sides);
+  StateFunction sf;
+  for (int k = 0; k < 3; ++k)
+    sf.n[k] = n[k];
+  sf.fractions = s_frac;
+  uint_fast32_t fields[DENSITYGRIDFIELD_NUMBER];
+  for (int_fast32_t p = 0; p < DENSITYGRIDFIELD_NUMBER; ++p)
+    fields[p] = 0;
+  fields[DENSITYGRIDFIELD_COORDINATES] = true;
+  fields[DENSITYGRIDFIELD_NUMBER_DENSITY] = s_nd;
+  fields[DENSITYGRIDFIELD_TEMPERATURE] = s_T;
+  fields[DENSITYGRIDFIELD_NEUTRAL_FRACTION] = s_frac ? (uint_fast32_t(1) << NUMBER_OF_IONNAMES) - 1 : 0;
+  if (hydro) {
+    fields[DENSITYGRIDFIELD_DENSITY] = s_rho;
+    fields[DENSITYGRIDFIELD_PRESSURE] = s_P;
+    fields[DENSITYGRIDFIELD_VELOCITIES] = s_vel;
+  }
+  const std::string prefix = "snapfields" + std::to_string(lineno) + "_";
+  {
+    GadgetDensityGridWriter writer(prefix, dir, hydro, DensityGridWriterFields(fields), nullptr);
+    if (hydro) {
+      DensitySubGridCreator< HydroDensitySubGrid > creator(box, params);
+      creator.initialize(sf);
+      const Hydro hydro_scheme(5. / 3., 100., 1.e4, 1.e99, false);
+      for (auto it = creator.begin(); it != creator.original_end(); ++it)
+        (*it).initialize_hydrodynamic_variables(hydro_scheme, true);
+      writer.write(creator, 0, params, 0.);
+    } else {
+      DensitySubGridCreator< DensitySubGrid > creator(box, params);
+      creator.initialize(sf);
+      writer.write(creator, 0, params);
+    }
+  }
+  const std::string file = dir + "/" + prefix + "000.hdf5";
+  std::string what_plain, what_buffered, sp, sr = "-";
+  {
+    CMacIonizeSnapshotDensityFunction reader(file, use_density, use_pressure, 1.e-6, nullptr);
+    reader.initialize();
+    sp = read_states(reader, sf, hydro && s_vel, what_plain, "CMacIonizeSnapshotDensityFunction");
+    reader.free();
+  }
+  if (cubic) {
+    BufferedCMacIonizeSnapshotDensityFunction reader(
+        file, buffer, box, CoordinateVector< uint_fast32_t >(n[0], n[1], n[2]), nullptr);
+    reader.initialize();
+    // (the buffered reader does not read velocities)
+    sr = read_states(reader, sf, false, what_buffered, "BufferedCMacIonizeSnapshotDensityFunction");
+    reader.free();
+  }
+  unlink(file.c_str());
+  std::printf("ok %ld P=%s R=%s\n", n[0] * n[1] * n[2], sp.c_str(), sr.c_str());
+  const std::string combo = std::string("stored:") + (s_nd ? " NumberDensity" : "") +
+                            (s_rho ? " Density" : "") + (s_T ? " Temperature" : "") +
+                            (s_P ? " Pressure" : "") + (s_frac ? " NeutralFractions" : "") +
+                            (s_vel ? " Velocities" : "") + (hydro ? "; hydro subgrids" : "; no hydro");
+  if (!what_plain.empty())
+    std::printf("ORACLE line=%ld snapshot-fields-differ (%s; use_density=%d use_pressure=%d; %s)\n", lineno,
+                combo.c_str(), (int)use_density, (int)use_pressure, what_plain.c_str());
+  if (!what_buffered.empty())
+    std::printf("ORACLE line=%ld snapshot-fields-differ-buffered (%s; %s)\n", lineno, combo.c_str(),
+                what_buffered.c_str());
+  std::fflush(stdout);
+}
+
 int main() {
   std::string line;
   long lineno = 0;
@@ -403,6 +576,10 @@ int main() {
   while (std::getline(std::cin, line)) {
     ++lineno;
     const std::vector< std::string > w = words(line);
+    if (w.size() == 17 && w[0] == "snapfields") {
+      op_snapfields(w, dir, lineno);
+      continue;
+    }
     if (w.size() == 10 && w[0] == "snapidx") {
       op_snapidx(w, dir, lineno);
       continue;
